@@ -101,6 +101,8 @@ M = [
 
  ("C15-refpoint-stale", "C15", "pybads/bads/bads.py", "                gp, gp_exit_flag = local_gp_fitting(\n                    gp,\n                    self.u,\n                    self.function_logger,\n                    self.options,\n                    self.optim_state,\n                    self.iteration_history,\n                    refit_flag,\n                )\n                if refit_flag:\n                    self.gp_refitted_flag = True\n                self.gp_exit_flag = np.minimum(self.gp_exit_flag, gp_exit_flag)\n\n            # Update Target from GP prediction\n            f_target_mu, f_target_s, f_target = self._get_target_from_gp_(\n                u_poll_best", "                gp, gp_exit_flag = local_gp_fitting(\n                    gp,\n                    self.optim_state[\"usuccess\"],\n                    self.function_logger,\n                    self.options,\n                    self.optim_state,\n                    self.iteration_history,\n                    refit_flag,\n                )\n                if refit_flag:\n                    self.gp_refitted_flag = True\n                self.gp_exit_flag = np.minimum(self.gp_exit_flag, gp_exit_flag)\n\n            # Update Target from GP prediction\n            f_target_mu, f_target_s, f_target = self._get_target_from_gp_(\n                u_poll_best"),
 
+ ("C09-empty-search-improves", "C09", "pybads/bads/bads.py", "            is_search_improved = False\n            is_search_success = False\n\n        # A search improvement implies", "            pass\n\n        # A search improvement implies"),
+ ("C09-hpd-empty", "C09", "pybads/bads/gaussian_process_train.py", "    if hpd_X.shape[0] == 0:\n", "    if False:\n"),
  ("C09-pollmult-int", "C09", "pybads/bads/bads.py", "        self.options[\"poll_mesh_multiplier\"] = float(\n            self.options[\"poll_mesh_multiplier\"]\n        )\n", ""),
  ("C09-stn-implicit-false", "C09", "pybads/bads/bads.py", "            and self.options[\"uncertainty_handling\"] is None\n        ):\n            self.options[\"uncertainty_handling\"] = True", "            and self.options[\"uncertainty_handling\"] is None\n        ):\n            self.options[\"uncertainty_handling\"] = False"),
  ("C09-sloppy-copy", "C09", "pybads/bads/bads.py", "            ] = self.sufficient_improvement\n", "            ] = self.sufficient_improvement.copy()\n"),
